@@ -647,6 +647,37 @@ func s15() scenario {
 	}}
 }
 
+// ---- S16: key generation on the process-wide curve / parameter singletons, each thread with its own random stream
+
+func s16() scenario {
+	return scenario{name: "S16-keygen-on-shared-singletons", setup: func() *inst {
+		in := &inst{outs: make([]string, 3)}
+		gen := func(i int, lane byte) func() {
+			return func() {
+				k, err := ecdh.P256().GenerateKey(&engine.DetReader{Lane: lane})
+				if err != nil {
+					in.outs[i] = "err:" + err.Error()
+					return
+				}
+				in.outs[i] = hex.EncodeToString(k.Bytes()) + "/" + hex.EncodeToString(k.PublicKey().Bytes())
+			}
+		}
+		in.threads = []func(){
+			gen(0, 101),
+			gen(1, 102),
+			func() {
+				k, err := sm2.GenerateKey(&engine.DetReader{Lane: 103})
+				if err != nil {
+					in.outs[2] = "err:" + err.Error()
+					return
+				}
+				in.outs[2] = k.D.Text(16)
+			},
+		}
+		return in
+	}}
+}
+
 func allScenarios() []scenario {
-	return []scenario{s1(), s2(), s3(), s4(), s5(), s6a(), s6b(), s7(), s8(), s9(), s10(), s11(), s12(), s13(), s14(), s15()}
+	return []scenario{s1(), s2(), s3(), s4(), s5(), s6a(), s6b(), s7(), s8(), s9(), s10(), s11(), s12(), s13(), s14(), s15(), s16()}
 }
